@@ -19,6 +19,7 @@ using phosg::StringWriter;
 
 static vf::Ctx* C;
 static const char* g_op = "(none)";   // phosg call in flight (for unexpected-exception reports)
+static bool g_alias_pput = false;  // --arg alias_pput=1: also pput<T>(off, ref into own buffer) with growth
 static const uint8_t* g_base = nullptr;  // base address of the bytes under the current StringReader
 
 template <typename T>
